@@ -221,6 +221,16 @@ def r3_own_address(ctx, f, rep):
                     n += 1
                     a = e['args'][1]
                     good = q.mentions(a, lambda x: x[0] == 'call' and x[1] in calls and calls[x[1]]['res'] == 'member::Members::next')
+                    if not good:
+                        # `next(..).cloned()` / `.map(Clone::clone)`: the Option handed on is a copy of what next returned
+                        def copies_next(x):
+                            if not (x[0] == 'call' and x[1] in calls):
+                                return False
+                            c_ = calls[x[1]]
+                            return c_['res'] in ('core::option::Option::cloned', 'core::option::Option::copied') and \
+                                c_['args'][0][0] == 'call' and c_['args'][0][1] in calls and \
+                                calls[c_['args'][0][1]]['res'] == 'member::Members::next'
+                        good = q.mentions(a, copies_next)
                     rep.check(good, 'C09-R3', cb.nname, 'the probed member is the one returned by Members::next',
                               site=e['span'], construct='probe-target-source')
             if n:
